@@ -239,3 +239,33 @@ func ZZ_C19_number_decode_arbitrary() {
 	}
 	zzAssert(bytes.Equal(in, buf), "arb.num.input-unmodified")
 }
+
+// ZZ_C19_bytes_dirty_dst: the encoding does not depend on what the destination
+// buffer's spare capacity held before (callers reuse buffers:
+// buf = EncodeBytes(buf[:0], key)).
+func ZZ_C19_bytes_dirty_dst() {
+	maxlen := zzParam("maxlen", 9)
+	d := zzBytes("d", maxlen)
+	plen := zzChoice("plen", 3)
+	need := plen + (len(d)/8+1)*9
+	// a destination with arbitrary previous content and enough (or one byte too little) room
+	room := need + zzChoice("slack", 3) - 1
+	dirty := zzBytesN("dirty", room)
+	dst := dirty[:plen]
+	pre := append([]byte(nil), dst...)
+	enc := EncodeBytes(dst, d)
+	clean := EncodeBytes(nil, d)
+	zzAssert(len(enc) == plen+len(clean), "dirty.len")
+	zzAssert(bytes.Equal(enc[:plen], pre), "dirty.prefix-kept")
+	zzAssert(bytes.Equal(enc[plen:], clean), "dirty.same-encoding-as-into-nil")
+	rest, got, err := DecodeBytes(enc[plen:], nil)
+	zzAssert(err == nil && len(rest) == 0 && bytes.Equal(got, d), "dirty.decodes")
+	// number encoders append after the prefix and are equally independent of old content
+	v := zzU64("v")
+	e1 := EncodeUintDesc(dirty[:plen], v)
+	zzAssert(bytes.Equal(e1[plen:], EncodeUintDesc(nil, v)), "dirty.uint")
+	e2 := EncodeComparableVarint(dirty[:plen], int64(v))
+	zzAssert(bytes.Equal(e2[plen:], EncodeComparableVarint(nil, int64(v))), "dirty.cvarint")
+	e3 := EncodeVarint(dirty[:plen], int64(v))
+	zzAssert(bytes.Equal(e3[plen:], EncodeVarint(nil, int64(v))), "dirty.varint")
+}
